@@ -1,7 +1,9 @@
 (* Dispatcher for C02: propagate_dft on the group ring Q(i)[C_L]; the case supplies L.
    The wavefront's fields are given directly, or (flag) as the phasors of the plane it was multiplied by.
    op 1: one propagation; op 2: a propagation followed by a propagation of its result (pupil ->
-   image -> pupil).  The square root of the unitary factor is applied by the harness (sq = 1). *)
+   image -> pupil); op 3: a history of calls (src, call): src = 0 propagates the initial wavefront,
+   src = j > 0 the result of step j; the model is a pure function, so a wavefront propagated several
+   times gives what a fresh copy would give.  The square root of the unitary factor is applied by the harness (sq = 1). *)
 From LV Require Import Extract.FieldCodec Model.Propagate.
 Require Import ExtrOcamlBasic.
 
@@ -39,6 +41,16 @@ Definition ewavefront (L : nat) (w : wavefront (GRS L)) : list Z :=
 Definition call (L : nat) (w : wavefront (GRS L)) (c : callargs) : result (wavefront (GRS L)) :=
   propagate_dft (S := GRS L) (fun _ => gr1 L) no_shift w (c_dur c) (c_duc c) (c_shape c) (c_pshape c) (c_os c) (c_mask c).
 
+(* results so far, oldest first *)
+Fixpoint history (L : nat) (w0 : wavefront (GRS L)) (steps : list (Z * callargs))
+         (done : list (result (wavefront (GRS L)))) : list (result (wavefront (GRS L))) :=
+  match steps with
+  | [] => done
+  | (src, c) :: rest =>
+    let w := if src =? 0 then Ok w0 else nth (Z.to_nat (src - 1)) done (Err IndexError) in
+    history L w0 rest (done ++ [rbind w (fun x => call L x c)])
+  end.
+
 Definition run (inp : list Z) : list Z :=
   match inp with
   | op :: Lz :: rest =>
@@ -51,6 +63,13 @@ Definition run (inp : list Z) : list Z :=
     else if op =? 2 then
       match pall (w <- pwavefront L ;; c1 <- pcall ;; c2 <- pcall ;; pret (w, c1, c2)) rest with
       | Some (w, c1, c2) => eresult (ewavefront L) (rbind (call L w c1) (fun w1 => call L w1 c2))
+      | None => emalformed end
+    else if op =? 3 then
+      match pall (w <- pwavefront L ;; st <- plist (ppair pZ pcall) ;; pret (w, st)) rest with
+      | Some (w, st) =>
+          if forallb (fun sc => (0 <=? fst sc)) st
+          then 0 :: elist (eresult (ewavefront L)) (history L w st [])
+          else emalformed
       | None => emalformed end
     else emalformed
   | _ => emalformed
